@@ -290,6 +290,15 @@ pub struct Side {
     pub populate_old: Option<Result<Val, String>>,
 }
 
+thread_local! {
+    static NO_READ: std::cell::Cell<bool> = const { std::cell::Cell::new(false) };
+}
+
+/// When set, handles returned by lookups are inspected (mode, offset) but not read.
+pub fn set_no_read(b: bool) {
+    NO_READ.with(|n| n.set(b));
+}
+
 pub fn inspect(mut f: std::fs::File) -> Got {
     use std::os::unix::io::AsRawFd;
     let fd = f.as_raw_fd();
@@ -300,6 +309,9 @@ pub fn inspect(mut f: std::fs::File) -> Got {
         libc::fstat(fd, &mut st);
         (fl & libc::O_ACCMODE, off, st.st_ino)
     });
+    if NO_READ.with(|n| n.get()) {
+        return Got { val: Err("handle not read".into()), raw_len: 0, accmode, offset, ino };
+    }
     let bytes = read_all(&mut f).unwrap_or_default();
     Got { val: Val::decode(&bytes), raw_len: bytes.len(), accmode, offset, ino }
 }
